@@ -1432,4 +1432,174 @@ theorem stepOk_wait_inv {cfg : Cfg} {s : TState} {cs cs' : S} {d : Nat}
         dsimp only at h
         exact ⟨cs1, rfl, h2, h3, (ite_error_ok h).symm⟩
 
+/-! ### 9. "Hold timer expired" only ever comes from the hold timer -/
+
+theorem conn_no_holdExpired (c : Conn) (i : Input) (hi : i ≠ .holdTimer) (n : Option Notif) :
+    Out.down .holdExpired n ∉ (c.process i).2 := by
+  rcases i with _ | m | _ | _ | _ | _ | _
+  all_goals try (rcases m with o | _ | _ | _ | _)
+  case holdTimer => exact absurd rfl hi
+  all_goals
+    simp only [Conn.process, Conn.onMessage, Conn.onConnected, Conn.onOpen, Conn.onKeepalive, Conn.onUpdate,
+      Conn.onNotification, Conn.onRouteRefresh, Conn.onKaTimer, Conn.onUpdateSent, Conn.onDisconnected,
+      Conn.onAdminShutdown, Conn.rearmHold, downLocal]
+    repeat' split
+    all_goals simp
+
+/-- "Hold timer expired" is never reported by a step that is not the hold timer firing. -/
+theorem no_holdExpired (p : Peer) (r : Role) (i : Input) (hi : i ≠ .holdTimer) (r'' : Role)
+    (n : Option Notif) : POut.conn r'' (.down .holdExpired n) ∉ (p.process r i).2 := by
+  by_cases hcon : ∃ b, i = .connected b
+  · obtain ⟨b, rfl⟩ := hcon
+    simp only [Peer.process, Peer.onConnected]
+    split
+    · simp
+    · simp [Conn.onConnected]; split <;> simp
+  · have hc : ∀ b, i ≠ .connected b := fun b hb => hcon ⟨b, hb⟩
+    cases hconn : p.connection r with
+    | none => rw [process_none p r i hconn hc]; simp
+    | some c =>
+      rw [process_some p r i c hconn hc]
+      have hk := conn_no_holdExpired c i hi n
+      unfold procBody
+      dsimp only
+      repeat' split
+      all_goals simp [downLocal, hk]
+      all_goals (intro x hx hh; cases hh; exact hk hx)
+
+theorem ev_no_holdExpired (s : TState) (r : Role) (e : Ev) (he : e ≠ .input .holdTimer) (r'' : Role)
+    (n : Option Notif) : POut.conn r'' (.down .holdExpired n) ∉ outsOf s r e := by
+  unfold outsOf
+  cases e with
+  | input i =>
+    simp only [arbStep, outsOfObs]
+    exact no_holdExpired s.peer r i (fun h => he (by rw [h])) r'' n
+  | rawOpen o =>
+    simp only [arbStep]
+    cases parseOpen o with
+    | ok m => simp only [outsOfObs]; exact no_holdExpired s.peer r _ (by intro h; cases h) r'' n
+    | error x => simp only [outsOfObs]; exact no_holdExpired s.peer r _ (by intro h; cases h) r'' n
+
+/-! ### 10. The untimed (C07) invariant carries over to timed runs -/
+
+theorem peer_applyOne (r : Role) (s : TState) (o : POut) : (applyOne r s o).peer = s.peer := by
+  cases o with
+  | conn r' o =>
+    cases o <;> simp [applyOne]
+    split <;> simp
+  | _ => rfl
+
+theorem peer_applyOuts (r : Role) (outs : List POut) : ∀ s : TState, (applyOuts r s outs).peer = s.peer := by
+  induction outs with
+  | nil => intro s; rfl
+  | cons o rest ih => intro s; rw [applyOuts_cons, ih, peer_applyOne]
+
+theorem fire_peer (s : TState) (dl : Nat) (r : Role) (isHold : Bool) :
+    (fire s dl r isHold).1.peer =
+      (arbStep s.peer r (.input (if isHold then .holdTimer else .kaTimer))).1 := by
+  simp [fire, peer_applyOuts, arbStep]
+
+theorem advance_inv (cfg : Cfg) (target : Nat) : ∀ (fuel : Nat) (s : TState) (acc : List Fired),
+    Inv cfg s.peer → Inv cfg (advance fuel s target acc).1.peer := by
+  intro fuel
+  induction fuel with
+  | zero => intro s acc h; exact h
+  | succ n ih =>
+    intro s acc h
+    cases hnd : nextDue s target with
+    | none => rw [advance_succ_none hnd]; exact h
+    | some x =>
+      obtain ⟨dl, r, isHold⟩ := x
+      rw [advance_succ_some hnd]
+      apply ih
+      rw [fire_peer]
+      exact inv_step cfg s.peer r _ h
+
+theorem tstep_inv (cfg : Cfg) (s : TState) (e : TEv) (h : Inv cfg s.peer) : Inv cfg (tstep s e).1.peer := by
+  cases e with
+  | ev r e =>
+    have : (tstep s (.ev r e)).1.peer = (arbStep s.peer r e).1 := by
+      simp only [tstep]
+      rw [peer_applyOuts]
+      split <;> simp
+    rw [this]; exact inv_step cfg s.peer r e h
+  | wait d => exact advance_inv cfg (s.now + d) (2 * d + 8) s [] h
+
+/-- Peers reached in timed runs satisfy the C07 invariant (well-formed slots, at most one
+    connection in OpenConfirm-or-Established) — for every history, well-formed or not. -/
+theorem reach_inv (cfg : Cfg) : ∀ (h : List TEv) (s : TState), Inv cfg s.peer → Inv cfg (reach s h).peer := by
+  intro h
+  induction h with
+  | nil => intro s hs; exact hs
+  | cons e rest ih => intro s hs; exact ih _ (tstep_inv cfg s e hs)
+
+/-! ### 11. Timer probe: the model's reading of `Set*Timer` passes the behavioural oracle -/
+
+theorem probe_slots (outs : List POut) (hp : ∀ o ∈ outs, probeOut o = true) : ∀ s : TState,
+    (applyOuts .passive s outs).now = s.now ∧
+    (applyOuts .passive s outs).p.hold =
+      (match lastSet true outs with
+       | none => s.p.hold
+       | some 0 => none
+       | some n => some (s.now + n)) ∧
+    (applyOuts .passive s outs).p.ka =
+      (match lastSet false outs with
+       | none => s.p.ka
+       | some n => some (s.now + n)) := by
+  induction outs with
+  | nil => intro s; simp [lastSet]
+  | cons o rest ih =>
+    intro s
+    have hrest : ∀ o ∈ rest, probeOut o = true := fun x hx => hp x (List.mem_cons_of_mem _ hx)
+    have ho := hp o List.mem_cons_self
+    obtain ⟨i1, i2, i3⟩ := ih hrest (applyOne .passive s o)
+    rw [applyOuts_cons]
+    have hnow : (applyOne .passive s o).now = s.now := by
+      cases o with
+      | conn r x => cases x <;> simp [applyOne, probeOut] at ho ⊢
+      | _ => simp [applyOne]
+    refine ⟨i1.trans hnow, ?_, ?_⟩
+    · rw [i2, hnow]
+      simp only [lastSet]
+      cases hl : lastSet true rest with
+      | some n => cases n <;> simp
+      | none =>
+        cases o with
+        | conn r x =>
+          cases x <;> simp [applyOne, probeOut, TState.setSlots, TState.slots, arm] at ho ⊢
+          case setHold n => cases n <;> simp
+        | _ => simp [applyOne]
+    · rw [i3, hnow]
+      simp only [lastSet]
+      cases hl : lastSet false rest with
+      | some n => simp
+      | none =>
+        cases o with
+        | conn r x =>
+          cases x <;> simp [applyOne, probeOut, TState.setSlots, TState.slots, arm] at ho ⊢
+        | _ => simp [applyOne]
+
+/-- The model's probe observation is accepted by the behavioural oracle for every list of
+    probe outputs. -/
+theorem probe_ok (outs : List POut) (hp : ∀ o ∈ outs, probeOut o = true) :
+    probeCheck outs (probe outs) = none := by
+  obtain ⟨-, h2, h3⟩ := probe_slots outs hp { peer := Peer.init default }
+  unfold probeCheck probe
+  simp only [h2, h3]
+  cases lastSet true outs with
+  | none =>
+    cases lastSet false outs with
+    | none => simp [slotObs]
+    | some k => cases k <;> simp [slotObs]
+  | some n =>
+    cases n with
+    | zero =>
+      cases lastSet false outs with
+      | none => simp [slotObs]
+      | some k => cases k <;> simp [slotObs]
+    | succ n =>
+      cases lastSet false outs with
+      | none => simp [slotObs]
+      | some k => cases k <;> simp [slotObs]
+
 end Rbgp.Fsm.TimedProofs
